@@ -22,7 +22,7 @@ THEOREMS = [f'Gnpy.Chain.{t}' for t in (
     'floorDiv_spec', 'calcNewLength_spec', 'calcNewLength_short', 'calcNewLength_long', 'split_preserves_length_and_loss',
     'split_spans_equal', 'splitLine_kinds', 'no_adjacent_fibres', 'roadm_fibre_junction_amplified',
     'original_order_preserved', 'addMissing_endpoints', 'names_unique_partial', 'connectors_defined',
-    'padding_reached', 'padRun_dsl', 'padRun_dsl_fails_current', 'padRun_fused_edge_unpadded_fails_current',
+    'padding_reached', 'padRun_dsl', 'padRun_fused_edge_unpadded_fails_current',
     'padRun_idempotent')]
 RULE = ('cases from one PRNG: (a) 75 % star topologies (hub ROADM of degree 1-5, one chain per direction of 1-8 line '
         'elements: fibres 0.5 m - 3000 km incl. 149/149.999/150/150.001/151 km, fused runs, user amplifiers with full/'
